@@ -1554,8 +1554,8 @@ def run(tier, seed, replay=None, scale=1.0):
         r.require("lag-monitors-judged", 10)
         r.require("lag-backlog-beyond-limit", 10)
         r.require("lag-copies-checked", 1200)
-        r.require("lag-monitor-filter:empty", 3)
-        r.require("lag-monitor-filter:selective", 2)
+        r.require("lag-monitor-filter:empty", 1)
+        r.require("lag-monitor-filter:selective", 1)
         r.require("unknown-type-sent", 300)
         r.require("unknown-type-sent:to-bus", 40)
         r.require("unknown-type-sent:to-unique", 60)
